@@ -181,6 +181,8 @@ Scenarios == {
     Sc("unknown-version-2-bytes", <<>>, <<OpN(3), Push(E500)>>, <<>>, "pk"),
     Sc("w0-2-bytes", <<>>, <<Op("OP_0"), Push(E500)>>, <<E1>>, "pk"),
     Sc("w0-40-bytes", <<>>, <<Op("OP_0"), Push(EF40)>>, <<E1>>, "pk"),
+    Sc("w0-2-bytes-no-witness", <<>>, <<Op("OP_0"), Push(E500)>>, <<>>, "pk"),
+    Sc("w0-40-bytes-no-witness", <<>>, <<Op("OP_0"), Push(EF40)>>, <<>>, "pk"),
     Sc("not-a-program-1-byte", <<>>, <<OpN(3), Push(E17)>>, <<>>, "pk"),
     Sc("anchor", <<>>, SeqScript("anchor"), <<>>, "pk"),
     Sc("anchor-witness", <<>>, SeqScript("anchor"), <<E1>>, "pk"),
